@@ -132,6 +132,30 @@ var binAliases = []alias{
 	{"z=a=b", true, true, true},
 }
 
+// checkResult compares a result object with the model value: canonical bytes,
+// the representation invariant (stored limbs < p, through the limb hook) and
+// the public observers Equal / IsZero, which read the stored limbs directly.
+func checkResult(z *FE, exp *big.Int) string {
+	if got := z.Bytes(); !bytes.Equal(got, ref.B32(exp)) {
+		return fmt.Sprintf("result %x, model %x", got, ref.B32(exp))
+	}
+	if l := limbsBig(secp256k1.VerifFELimbs(z)); l.Cmp(ref.P) >= 0 {
+		return fmt.Sprintf("result stored unreduced: limbs %x >= p (model %x)", l, exp)
+	}
+	e := mk(exp)
+	if z.Equal(e) != 1 || e.Equal(z) != 1 {
+		return fmt.Sprintf("result encodes as the model value %x but Equal(model) = 0", exp)
+	}
+	wz := uint64(0)
+	if exp.Sign() == 0 {
+		wz = 1
+	}
+	if z.IsZero() != wz {
+		return fmt.Sprintf("IsZero of result = %d, model %d", z.IsZero(), wz)
+	}
+	return ""
+}
+
 // runBin executes one binary transition under one alias pattern; returns a
 // description of the mismatch or "".
 func runBin(op *binop, va, vb *big.Int, al alias) string {
@@ -160,8 +184,8 @@ func runBin(op *binop, va, vb *big.Int, al alias) string {
 	if ret != z {
 		return "did not return the receiver"
 	}
-	if got := z.Bytes(); !bytes.Equal(got, ref.B32(exp)) {
-		return fmt.Sprintf("result %x, model %x", got, ref.B32(exp))
+	if m := checkResult(z, exp); m != "" {
+		return m
 	}
 	if a != z && !bytes.Equal(a.Bytes(), ref.B32(va)) {
 		return "operand a modified"
@@ -186,8 +210,8 @@ func runUn(op *unop, va *big.Int, aliased bool) string {
 	if ret != z {
 		return "did not return the receiver"
 	}
-	if got := z.Bytes(); !bytes.Equal(got, ref.B32(exp)) {
-		return fmt.Sprintf("result %x, model %x", got, ref.B32(exp))
+	if m := checkResult(z, exp); m != "" {
+		return m
 	}
 	if !aliased && !bytes.Equal(a.Bytes(), ref.B32(va)) {
 		return "operand modified"
